@@ -135,39 +135,57 @@ def check(tier, seed):
     verdicts = engine_a.run(run, SCH.CONTRACTS, ns, adts, None, jobs=1)
     run.cov["parts"]["engine_a"] = verdicts
     # --- B. deductive (path-wise): every write to validated state invalidates the memoised verdict ------------
-    WRITES = re.compile(r"\.(resolver|default_resolver|subscription_resolver)$|^self\.(types|directives)(\[|$)")
+    WRITES = re.compile(r"\.(resolver|_?default_resolver|subscription_resolver)$|^self\.(types|directives)(\[|$)")
 
     def is_write(text):
         return bool(WRITES.search(text))
 
-    def is_action(text, stmt):
-        return text == "self._is_valid" and isinstance(stmt, ast_Assign) and isinstance(stmt.value, ast_Constant) and stmt.value.value is None
     import ast
+    import inspect
+    import textwrap
     ast_Assign, ast_Constant = ast.Assign, ast.Constant
-    helper = pathcheck.must_follow(Schema.__dict__["_invalidate_and_rebuild_caches"], lambda t: False, is_action)
-    if not helper or not all(o["acted"] for o in helper):
-        raise MachineryDefect("Schema._invalidate_and_rebuild_caches no longer resets _is_valid on every path")
-    # (_replace_types_and_directives guards its writes with a change flag, so "write => invalidate" is not a
-    #  syntactic-path property there; it is covered by the replacement histories of part C)
-    for name in ("register_default_resolver", "register_resolver", "register_subscription"):
-        func = Schema.__dict__[name]
-        obs = pathcheck.must_follow(func, is_write, is_action, action_calls=("self._invalidate_and_rebuild_caches",))
-        if not obs:
-            raise MachineryDefect("no return path found in Schema.%s" % name)
-        run.cov["functions_under_contract"].append("Schema.%s (cache invalidation, path-wise)" % name)
-        writes = 0
-        for o in obs:
-            run.cov["obligations"] += 1
-            run.cov["backends"]["syntactic-path enumeration"] = run.cov["backends"].get("syntactic-path enumeration", 0) + 1
-            writes += o["wrote"]
-            if o["holds"]:
-                run.cov["discharged"] += 1
-            else:
-                run.violation("Schema.%s:invalidates-cache" % name,
-                              "a normal-return path of Schema.%s writes validated state without resetting _is_valid afterwards: %s" % (name, o["path"]),
-                              {"function": name, "path": o["path"], "line": o["line"]}, False)
-        if writes == 0:
-            raise MachineryDefect("Schema.%s: no write recognised (pattern out of date?)" % name)
+    # what validate() remembers between calls: the attributes of the schema it both reads and assigns (on the unchanged tree: _is_valid)
+    vtree = ast.parse(textwrap.dedent(inspect.getsource(Schema.__dict__["validate"])))
+    selfattrs = lambda ctx: {x.attr for x in ast.walk(vtree) if isinstance(x, ast.Attribute) and isinstance(x.value, ast.Name) and x.value.id == "self" and isinstance(x.ctx, ctx)}
+    memo_attrs = sorted(selfattrs(ast.Load) & selfattrs(ast.Store))
+    if not memo_attrs:
+        run.notes.append("Schema.validate keeps no verdict between calls any more: no invalidation obligations")
+    mutators = [("register_default_resolver", Schema.__dict__["register_default_resolver"]), ("register_resolver", Schema.__dict__["register_resolver"]),
+                ("register_subscription", Schema.__dict__["register_subscription"])]
+    setter = getattr(Schema.__dict__.get("default_resolver"), "fset", None)
+    if setter is not None:
+        mutators.append(("default_resolver (setter)", setter))
+    for attr in memo_attrs:
+        def is_action(text, stmt, attr=attr):
+            if text != "self." + attr or not isinstance(stmt, ast_Assign):
+                return False
+            # _is_valid is reset to None (= not validated); any other remembered attribute by being assigned again
+            return attr != "_is_valid" or (isinstance(stmt.value, ast_Constant) and stmt.value.value is None)
+        helper = pathcheck.must_follow(Schema.__dict__["_invalidate_and_rebuild_caches"], lambda t: False, is_action)
+        helper_resets = bool(helper) and all(o["acted"] for o in helper)
+        if attr == "_is_valid" and not helper_resets:
+            raise MachineryDefect("Schema._invalidate_and_rebuild_caches no longer resets _is_valid on every path")
+        # (_replace_types_and_directives guards its writes with a change flag, so "write => invalidate" is not a
+        #  syntactic-path property there; it is covered by the replacement histories of part C)
+        for name, func in mutators:
+            obs = pathcheck.must_follow(func, is_write, is_action, action_calls=("self._invalidate_and_rebuild_caches",) if helper_resets else ())
+            if not obs:
+                raise MachineryDefect("no return path found in Schema.%s" % name)
+            if attr == memo_attrs[0]:
+                run.cov["functions_under_contract"].append("Schema.%s (cache invalidation, path-wise)" % name)
+            writes = 0
+            for o in obs:
+                run.cov["obligations"] += 1
+                run.cov["backends"]["syntactic-path enumeration"] = run.cov["backends"].get("syntactic-path enumeration", 0) + 1
+                writes += o["wrote"]
+                if o["holds"]:
+                    run.cov["discharged"] += 1
+                else:
+                    run.violation("Schema.%s:invalidates-cache" % name,
+                                  "a normal-return path of Schema.%s writes validated state without resetting %s (which validate() reads back on its next call) afterwards: %s"
+                                  % (name, attr, o["path"]), {"function": name, "attribute": attr, "path": o["path"], "line": o["line"]}, False)
+            if writes == 0:
+                raise MachineryDefect("Schema.%s: no write recognised (pattern out of date?)" % name)
     # --- C. bounded -----------------------------------------------------------------------------------------------
     n = nontrivial = 0
     valid = [schemas.BASE_SDL] + VALID_EXTRA + [schemas.apply_edit(schemas.BASE_SDL, o, nw) for _l, o, nw, _e in schemas.EDITS]
@@ -246,6 +264,50 @@ def check(tier, seed):
             run.violation("validate:recomputed-after-resolver-change",
                           "after validate(); %s(bad resolver); validate() keeps the stale verdict although validate_schema() rejects" % how,
                           {"history": ["validate", how, "validate"]}, True)
+    # the other direction: a schema rejected because of a resolver, repaired through the same interfaces, must be accepted on the next validate()
+    good = lambda root, ctx, info, **kw: 1          # noqa: E731
+    for how in ("register_resolver", "register_default_resolver", "decorator-wildcard", "register_subscription", "assign-default_resolver"):
+        s = build_schema("type Query { item(id: ID!): Int } type Subscription { tick(n: Int!): Int }")
+        bad = lambda root, ctx, info: 1          # noqa: E731
+        try:
+            if how == "register_resolver":
+                s.register_resolver("Query", "item", bad)
+                repair = lambda: s.register_resolver("Query", "item", good, allow_override=True)            # noqa: E731
+            elif how == "register_default_resolver":
+                s.register_default_resolver("Query", bad)
+                repair = lambda: s.register_default_resolver("Query", good, allow_override=True)            # noqa: E731
+            elif how == "decorator-wildcard":
+                s.resolver("Query.*")(bad)
+                repair = lambda: s.register_default_resolver("Query", good, allow_override=True)            # noqa: E731
+            elif how == "assign-default_resolver":
+                s.default_resolver = lambda root: 1
+                repair = lambda: setattr(s, "default_resolver", good)                                       # noqa: E731
+            else:
+                s.register_subscription("Subscription", "tick", bad)
+                repair = lambda: s.register_subscription("Subscription", "tick", good, allow_override=True)  # noqa: E731
+        except (GraphQLError, TypeError):
+            continue
+        try:
+            s.validate()
+            continue            # (not rejected in the first place: nothing to repair)
+        except SchemaError:
+            pass
+        try:
+            repair()
+        except (GraphQLError, TypeError, ValueError):
+            continue
+        n += 1
+        nontrivial += 1
+        try:
+            validate_schema(s)
+        except SchemaValidationError:
+            continue            # the repair did not make the schema valid: no expectation
+        try:
+            s.validate()
+        except SchemaError as e:
+            run.violation("validate:recomputed-after-resolver-change",
+                          "after a rejected validate(); %s(good resolver); validate() still raises the old error although validate_schema() accepts: %s" % (how, e),
+                          {"history": ["validate (rejected)", how + " (repair)", "validate"]}, True)
     # histories through Schema._replace_types_and_directives: the memoised verdict must be dropped and references healed
     from py_gql.schema import Directive, Field, Int, ObjectType
     for label in ("remove-directive", "replace-directive", "replace-type-then-unchanged-type", "unchanged-type-then-replace-type"):
